@@ -60,6 +60,22 @@ theorem routeLog_append (r : Nat) (a b : List Eff) : routeLog r (a ++ b) = route
 /-- the route is no longer (and not yet again) known to the router: nothing can concern it -/
 def Gone (st : St) (r : Nat) : Prop := r ∉ st.handlers.map (·.2) ∧ r ∉ msgqRoutes st.msgq
 
+/-- serving a queue without a shutdown request: nothing logged, router keeps running, the queue is empty afterwards and
+the registered routes are the old ones followed by the queued ones -/
+theorem drainQ_values (q : List RMsg) (st : St) (hns : ∀ m ∈ q, ∀ c, m ≠ .shutdown c) :
+    (drainQ st q).log = st.log ∧ (drainQ st q).handlers.map (·.2) = st.handlers.map (·.2) ++ msgqRoutes q ∧ (drainQ st q).msgq = [] ∧
+    (drainQ st q).stopped = st.stopped := by
+  induction q generalizing st with
+  | nil => simp [drainQ, msgqRoutes]
+  | cons m q ih =>
+    cases m with
+    | shutdown c => exact absurd rfl (hns _ List.mem_cons_self c)
+    | addRoute r =>
+      simp only [drainQ]
+      obtain ⟨h1, h2, h3, h4⟩ := ih { st with handlers := st.handlers ++ [(st.nextId, r)], nextId := st.nextId + 1 }
+        (fun m hm => hns m (List.mem_cons_of_mem _ hm))
+      exact ⟨h1, by rw [h2]; simp [msgqRoutes], h3, h4⟩
+
 theorem step_gone {st : St} {r : Nat} (hg : Gone st r) (hns : ∀ m ∈ st.msgq, ∀ c, m ≠ .shutdown c) (e : Ev) (he : e ≠ .wakeClosed) :
     Gone (step fixed st e) r ∧ routeLog r (step fixed st e).log = routeLog r st.log ∧
     (∀ m ∈ (step fixed st e).msgq, ∀ c, m ≠ .shutdown c) := by
@@ -71,26 +87,17 @@ theorem step_gone {st : St} {r : Nat} (hg : Gone st r) (hns : ∀ m ∈ st.msgq,
     cases e with
     | wakeClosed => exact absurd rfl he
     | wake =>
-      cases hq : st.msgq with
-      | nil =>
-        have hst : step fixed st .wake = { st with log := st.log ++ [.panic] } := by unfold step; simp [hs', hq]
-        rw [hst]
-        exact ⟨hg, by simp [routeLog_append, routeLog, isRoute], hns⟩
-      | cons m q =>
-        cases m with
-        | shutdown c => exact absurd rfl (hns _ (by rw [hq]; exact List.mem_cons_self) c)
-        | addRoute r' =>
-          have hst : step fixed st .wake = { st with msgq := q, handlers := st.handlers ++ [(st.nextId, r')], nextId := st.nextId + 1 } := by
-            unfold step; simp [hs', hq]
-          rw [hst]
-          have hr' : r' ≠ r := fun e => hg.2 (by rw [hq]; simp [msgqRoutes, e])
-          refine ⟨⟨?_, ?_⟩, rfl, fun m hm => hns m (by rw [hq]; exact List.mem_cons_of_mem _ hm)⟩
-          · simp only [List.map_append, List.map_cons, List.map_nil]
-            intro hm
-            rcases List.mem_append.mp hm with h1 | h1
-            · exact hg.1 h1
-            · simp at h1; exact hr' h1.symm
-          · intro hm; exact hg.2 (by rw [hq]; simp [msgqRoutes] at hm ⊢; exact Or.inr hm)
+      rw [step_wake_fixed st hs']
+      obtain ⟨d1, d2, d3, _⟩ := drainQ_values st.msgq st hns
+      refine ⟨⟨?_, ?_⟩, ?_, ?_⟩
+      · rw [d2]
+        intro hm
+        rcases List.mem_append.mp hm with h1 | h1
+        · exact hg.1 h1
+        · exact hg.2 h1
+      · rw [d3]; simp [msgqRoutes]
+      · rw [d1]
+      · rw [d3]; intro m hm; cases hm
     | msg i t =>
       cases hl : lookup st.handlers i with
       | none =>
@@ -143,34 +150,16 @@ theorem dispatch_run (es : List Ev) {st : St} (hi : RInv st) {id r : Nat} (hl : 
     | wakeClosed => exact absurd List.mem_cons_self hnc
     | wake =>
       simp only [proj]
-      cases hq : st.msgq with
-      | nil =>
-        have hst : step fixed st .wake = { st with log := st.log ++ [.panic] } := by unfold step; simp [hi.running, hq]
-        have hi' : RInv (step fixed st .wake) := by rw [hst]; exact ⟨hi.running, hi.fresh, hi.routesNodup, hi.noShutdown⟩
-        have := ih hi' (by rw [hst]; exact hl) hnc'
-        simp only [run] at this
-        rw [this, hst]; simp [routeLog_append, routeLog, isRoute]; try rfl
-      | cons m q =>
-        cases m with
-        | shutdown c => exact absurd rfl (hi.noShutdown _ (by rw [hq]; exact List.mem_cons_self) c)
-        | addRoute r' =>
-          have hst : step fixed st .wake = { st with msgq := q, handlers := st.handlers ++ [(st.nextId, r')], nextId := st.nextId + 1 } := by
-            unfold step; simp [hi.running, hq]
-          have hi' : RInv (step fixed st .wake) := by
-            rw [hst]
-            refine ⟨hi.running, ?_, ?_, fun m hm => hi.noShutdown m (by rw [hq]; exact List.mem_cons_of_mem _ hm)⟩
-            · intro p hp
-              rcases List.mem_append.mp hp with h1 | h1
-              · have := hi.fresh p h1; simp only; omega
-              · simp at h1; subst h1; simp
-            · have := hi.routesNodup
-              rw [hq] at this
-              simp only [msgqRoutes, List.filterMap_cons] at this
-              simp only [List.map_append, List.map_cons, List.map_nil, List.append_assoc, List.singleton_append]
-              exact this
-          have := ih hi' (by rw [hst]; exact lookup_append_left' hl) hnc'
-          simp only [run] at this
-          rw [this, hst]; rfl
+      rw [step_wake_fixed st hi.running]
+      have hd := drainQ_values st.msgq st hi.noShutdown
+      have hl2 := drainQ_lookup st.msgq st hi.fresh hi.noShutdown
+      have hi' : RInv (drainQ st st.msgq) := by
+        refine ⟨by rw [hd.2.2.2]; exact hi.running, hl2.2.2.2.1, ?_, by rw [hd.2.2.1]; simp⟩
+        rw [hd.2.1, hd.2.2.1]; simpa [msgqRoutes] using hi.routesNodup
+      have hidlt : id < st.nextId := hi.fresh _ hmem
+      have := ih hi' (by rw [hl2.2.2.2.2.2.1 id hidlt]; exact hl) hnc'
+      simp only [run] at this
+      rw [this, hd.1]; rfl
     | msg i tg =>
       by_cases hid : i = id
       · subst hid
